@@ -356,9 +356,13 @@ impl BreakerBase {
 
 impl Drop for BreakerBase {
     fn drop(&mut self) {
+        // read the state before taking the listeners lock: every transition locks the state
+        // first and the listeners second, and the exit hook of a probe entry may still do so
+        // while this breaker is being dropped by a reload
+        let state = self.current_state();
         let listeners = state_change_listeners().lock().unwrap();
         for listener in &*listeners {
-            listener.on_circuit_breaker_drop(self.current_state(), Arc::clone(&self.rule));
+            listener.on_circuit_breaker_drop(state, Arc::clone(&self.rule));
         }
     }
 }
